@@ -291,7 +291,7 @@ package route
 //@   requires treeWF() && isTree(t) && r != nil && s != nil && h != nil
 //@   modifies baseTree.leaves, elems(type([]Leaf)), Segment.str, Segment.strOnce.fired, Route.str, Route.strOnce.fired
 //@   ensures treeWF()
-//@   ensures result1 == nil ==> result0 != nil
+//@   ensures result1 == nil ==> result0 != nil && leafBase(result0).headerMatcher == nil && leafBase(result0).segment == s && leafBase(result0).route == r
 //@   ensures result1 != nil ==> result0 == nil
 //@   loop 0 invariant treeWF()
 //@   loop 1 invariant treeWF() && 0 <= i && i <= len(leaves)
@@ -301,7 +301,7 @@ package route
 //@   requires treeWF() && isTree(t) && routeWF(r) && h != nil && 0 <= next && next + 1 < len(r.Segments)
 //@   modifies baseTree.leaves, baseTree.subtrees, elems(type([]Leaf)), elems(type([]Tree)), Segment.str, Segment.strOnce.fired, Route.str, Route.strOnce.fired
 //@   ensures treeWF()
-//@   ensures result1 == nil ==> result0 != nil
+//@   ensures result1 == nil ==> result0 != nil && leafBase(result0).headerMatcher == nil && leafBase(result0).segment == r.Segments[len(r.Segments) - 1] && leafBase(result0).route == r
 //@   ensures result1 != nil ==> result0 == nil
 //@   loop 0 invariant treeWF()
 //@   loop 1 invariant treeWF() && 0 <= i && i <= len(subtrees)
@@ -311,7 +311,7 @@ package route
 //@   requires treeWF() && isTree(t) && routeWF(r) && h != nil && 0 <= next && next < len(r.Segments)
 //@   modifies baseTree.leaves, baseTree.subtrees, elems(type([]Leaf)), elems(type([]Tree)), Segment.str, Segment.strOnce.fired, Route.str, Route.strOnce.fired
 //@   ensures treeWF()
-//@   ensures result1 == nil ==> result0 != nil
+//@   ensures result1 == nil ==> result0 != nil && leafBase(result0).headerMatcher == nil && leafBase(result0).segment == r.Segments[len(r.Segments) - 1] && leafBase(result0).route == r
 //@   ensures result1 != nil ==> result0 == nil
 
 //@ func AddRoute
@@ -319,5 +319,19 @@ package route
 //@   requires treeWF() && isTree(t) && h != nil && (r == nil || len(r.Segments) == 0 || routeWF(r))
 //@   modifies baseTree.leaves, baseTree.subtrees, elems(type([]Leaf)), elems(type([]Tree)), Segment.str, Segment.strOnce.fired, Route.str, Route.strOnce.fired
 //@   ensures treeWF()
-//@   ensures result1 == nil ==> result0 != nil
+//@   ensures result1 == nil ==> result0 != nil && r != nil && len(r.Segments) >= 1 && leafBase(result0).headerMatcher == nil && leafBase(result0).segment == r.Segments[len(r.Segments) - 1] && leafBase(result0).route == r
 //@   ensures result1 != nil ==> result0 == nil
+
+// The parser (participle, third-party, reflection-driven) is outside the reach of contracts: assumed here,
+// audited by the bounded stand-in of C06.
+//@ trusted (*route.Parser).Parse(p, s) r, err
+//@   requires treeWF()
+//@   ensures err == nil ==> routeWF(r)
+//@   ensures treeWF()
+
+// Static(): the leaf and all its ancestors are static
+//@ func (*staticLeaf).Static
+//@   props C10
+//@   requires treeWF()
+//@   modifies nothing
+//@   loop 0 invariant treeWF() && (ancestor == nil || isTree(ancestor))
